@@ -1,4 +1,5 @@
 import FV.Proofs.Netlist
+import FV.Proofs.NetlistDoc
 import FV.Proofs.StogInst
 /-
   C05 — a loaded netlist matches its definition; ill-formed designs are rejected.
@@ -32,6 +33,13 @@ variable {α : Type} [Field α] [LinearOrder α] [IsStrictOrderedRing α]
 variable {stog : List (NRect α) → List (NRect α)} {εA : α}
 
 /-! ## Part 1: derived quantities -/
+
+/-- the attribute dictionary `info` has the entry `key: v`. -/
+def HasAttr (info : List (YVal α × YVal α)) (key : String) (v : YVal α) : Prop := (YVal.str key, v) ∈ info
+
+/-- the attribute dictionary `info` has no entry `key`. -/
+def NoAttr (info : List (YVal α × YVal α)) (key : String) : Prop := ∀ v, (YVal.str key, v) ∉ info
+
 
 /-- `Module.area()` is the sum of the per-region areas (running sum = `List.sum`). -/
 theorem area_def (m : NL.Mod α) : m.area = (m.areaRegions.map (·.2)).sum := Mod.area_eq m
@@ -116,10 +124,10 @@ theorem center_def_no_rects {t : YVal α} {n : Netlist α} (h : parseNetlist sto
   obtain ⟨ms, es, hd, _, hmods, _⟩ := parseNetlist_modules h
   exact ⟨ms, es, hd, hmods, fun m0 _ hr => finalize_rects_nil hr⟩
 
-/-- `Netlist.rectangles`: the rectangles of all modules, module by module, in document order (the list is built
-    before the STOG step); each module afterwards holds a permutation of its chunk, with roles assigned. -/
-theorem rectangles_def (hp : StogPerm stog) {t : YVal α} {n : Netlist α} (h : parseNetlist stog εA t = .ok n) :
-    ∃ ms es, parseDoc t = .ok (ms, es) ∧ loadRectangles stog εA t = .ok (ms.flatMap (·.rects)) ∧
+/-- each loaded module holds a permutation (roles apart) of the rectangles the reader parsed for it, module by module
+    in the same order, under the same names. -/
+theorem rectangles_perm (hp : StogPerm stog) {t : YVal α} {n : Netlist α} (h : parseNetlist stog εA t = .ok n) :
+    ∃ ms es, parseDoc t = .ok (ms, es) ∧
       List.Forall₂ (fun (m : NL.Mod α) (m0 : NL.Mod α) => m.name = m0.name ∧
         (m.rects.map NRect.resetLoc).Perm (m0.rects.map NRect.resetLoc)) n.modules ms := by
   have key : ∀ ms : List (NL.Mod α), List.Forall₂ (fun (m : NL.Mod α) (m0 : NL.Mod α) => m.name = m0.name ∧
@@ -133,9 +141,137 @@ theorem rectangles_def (hp : StogPerm stog) {t : YVal α} {n : Netlist α} (h : 
       · rw [finalize_rects_nil hr]
       · rw [finalize_rects_cons hr]; exact hp m0.rects
   obtain ⟨ms, es, hd, _, hmods, _⟩ := parseNetlist_modules h
-  refine ⟨ms, es, hd, ?_, ?_⟩
-  · simp [loadRectangles, h, hd]
-  · rw [hmods]; exact key ms
+  refine ⟨ms, es, hd, ?_⟩
+  rw [hmods]; exact key ms
+
+
+/-! ### Part 1 at the level of the SOURCE DOCUMENT
+
+`HasModules t mods` / `HasNets t nets`: `t` is a root dictionary with `Modules: mods` / `Nets: nets`.
+`AreaOfDoc v regs`: the `area:` value `v` denotes the regions `regs` (a number is ground area; a dictionary is taken entry
+by entry, in order).  `EntryRect ent r`: the entry `[x, y, w, h(, region)]` describes the rectangle `r` (numbers with
+their tags, region, no role yet).  `CenterOfDoc cv c`: `cv = [x, y]` denotes the point `c`.  `NetOfDoc y e`: the entry
+`[names…(, weight)]` denotes the net `e` (weight 1 when absent).  (Definitions in `FV/Proofs/NetlistDoc.lean`.) -/
+
+/-- what the document says about one module. -/
+structure ModuleOfDoc (stog : List (NRect α) → List (NRect α)) (info : List (YVal α × YVal α)) (m : NL.Mod α) : Prop where
+  /-- soft ⇔ the entry has a (non-empty) `area` -/
+  soft_iff : m.hard = false ↔ ∃ v, HasAttr info "area" v ∧ v ≠ .map []
+  /-- soft: the per-region areas are the document's -/
+  area : ∀ v, HasAttr info "area" v → m.hard = false → AreaOfDoc v m.areaRegions
+  fixed_iff : m.fixed = true ↔ HasAttr info "fixed" (.bool true)
+  terminal_iff : m.terminal = true ↔ HasAttr info "terminal" (.bool true)
+  flip_iff : m.flip = true ↔ HasAttr info "flip" (.bool true)
+  /-- no `rectangles`: none loaded, and the centre is the document's `center` (or none) -/
+  no_rects : NoAttr info "rectangles" → m.rects = [] ∧
+    (∀ cv, HasAttr info "center" cv → ∃ c, CenterOfDoc cv c ∧ m.center = some c) ∧
+    (NoAttr info "center" → m.center = none)
+  /-- `rectangles`: the loaded rectangles are the STOG step applied to the rectangles the entries describe (in document
+      order); the centre is THEIR area-weighted centroid whatever `center` says; a hard module's area is THEIR total -/
+  rects : ∀ rv, HasAttr info "rectangles" rv → ∃ es rs0, rectEntries rv = some es ∧ List.Forall₂ EntryRect es rs0 ∧
+    rs0 ≠ [] ∧ m.rects = stog rs0 ∧
+    m.center = some ((rs0.map fun r => r.area * r.cx.val).sum / (rs0.map NRect.area).sum,
+                     (rs0.map fun r => r.area * r.cy.val).sum / (rs0.map NRect.area).sum) ∧
+    0 < (rs0.map NRect.area).sum ∧
+    (m.hard = true → m.areaRegions = [("_", (rs0.map NRect.area).sum)])
+
+/-- MODULES: the loaded modules are the entries of the document's `Modules` dictionary, in the same order and under the
+    same names, and every field of a loaded module is what its entry says (`ModuleOfDoc`). -/
+theorem modules_of_document {t : YVal α} {n : Netlist α} {mods : List (YVal α × YVal α)} (hd : HasModules t mods)
+    (h : parseNetlist stog εA t = .ok n) :
+    List.Forall₂ (fun (e : YVal α × YVal α) (m : NL.Mod α) =>
+      ∃ info, e = (YVal.str m.name, YVal.map info) ∧ ModuleOfDoc stog info m) mods n.modules := by
+  obtain ⟨ms, hF, hmods, hes⟩ := loaded_modules_doc hd h
+  rw [hmods]
+  clear hmods hes hd
+  induction hF with
+  | nil => exact List.Forall₂.nil
+  | @cons e m0 _ _ hpe _ ih =>
+    refine List.Forall₂.cons ?_ ih
+    obtain ⟨name, l, _, _, _, _, he1, _, he2, _⟩ := parseModule_ok hpe
+    have hee : e = (e.1, YVal.map l) := Prod.ext rfl he2
+    rw [hee] at hpe
+    obtain ⟨d1, d2, d3, d4, d5, d6, d7, d8, d9, d10⟩ := parseModule_doc hpe
+    have hok := (parseModule_modOK hpe).1
+    obtain ⟨g1, g2, g3, g4, g5⟩ := finalize_fields stog m0
+    refine ⟨l, ?_, ?_⟩
+    · rw [hee, finalize_name]; exact Prod.ext d1 rfl
+    · refine ⟨by rw [g1]; exact d2, ?_, by rw [g2]; exact d4, by rw [g3]; exact d5, by rw [g4]; exact d6, ?_, ?_⟩
+      · intro v hv hh; rw [g1] at hh; rw [g5]; exact d3 v hv hh
+      · intro hno
+        have hr := d7 hno
+        rw [finalize_rects_nil hr]
+        exact ⟨hr, d9, d10⟩
+      · intro rv hrv
+        obtain ⟨es, hes, hF2, hne⟩ := d8 rv hrv
+        refine ⟨es, m0.rects, hes, hF2, hne, ?_, ?_, ?_, ?_⟩
+        · rw [finalize_rects_cons hne]
+        · rw [finalize_rects_cons hne, centroid_def]
+        · obtain ⟨r, rest, hrr⟩ := List.exists_cons_of_ne_nil hne
+          have hpos : ∀ r ∈ m0.rects, 0 < r.area := fun r hr => by
+            have := hok.rects_ok r hr
+            exact mul_pos this.w_pos this.h_pos
+          rw [hrr] at hpos ⊢
+          simp only [List.map_cons, List.sum_cons]
+          have h1 := hpos r List.mem_cons_self
+          have h2 : 0 ≤ (rest.map NRect.area).sum :=
+            List.sum_nonneg (fun x hx => by
+              obtain ⟨y, hy, rfl⟩ := List.mem_map.mp hx
+              exact le_of_lt (hpos y (List.mem_cons_of_mem _ hy)))
+          linarith
+        · intro hh
+          rw [g1] at hh
+          rw [g5, (hok.hard_ok hh).2.1, sumAreas_eq]
+
+/-- RECTANGLES: the flat list `Netlist.rectangles` is the concatenation, module by module in document order, of the
+    rectangles the `rectangles:` entries describe; each loaded module holds the STOG step of its chunk. -/
+theorem rectangles_def {t : YVal α} {n : Netlist α} {mods : List (YVal α × YVal α)} (hd : HasModules t mods)
+    (h : parseNetlist stog εA t = .ok n) :
+    ∃ rss : List (List (NRect α)),
+      List.Forall₂ (fun (e : YVal α × YVal α) (rs0 : List (NRect α)) => ∃ k info, e = (k, YVal.map info) ∧
+        ((NoAttr info "rectangles" ∧ rs0 = []) ∨
+          ∃ rv es, HasAttr info "rectangles" rv ∧ rectEntries rv = some es ∧ List.Forall₂ EntryRect es rs0)) mods rss ∧
+      loadRectangles stog εA t = .ok rss.flatten ∧
+      n.modules.map (·.rects) = rss.map (fun rs0 => if rs0 = [] then [] else stog rs0) := by
+  obtain ⟨ms, hF, hmods, es, hdoc⟩ := loaded_modules_doc hd h
+  refine ⟨ms.map (·.rects), ?_, ?_, ?_⟩
+  · clear hmods hdoc hd
+    induction hF with
+    | nil => exact List.Forall₂.nil
+    | @cons e m0 _ _ hpe _ ih =>
+      refine List.Forall₂.cons ?_ ih
+      obtain ⟨name, l, _, _, _, _, he1, _, he2, _⟩ := parseModule_ok hpe
+      have hee : e = (e.1, YVal.map l) := Prod.ext rfl he2
+      rw [hee] at hpe
+      obtain ⟨_, _, _, _, _, _, d7, d8, _, _⟩ := parseModule_doc hpe
+      refine ⟨e.1, l, hee, ?_⟩
+      by_cases hno : ∀ rv, (YVal.str "rectangles", rv) ∉ l
+      · exact Or.inl ⟨hno, d7 hno⟩
+      · simp only [not_forall, not_not] at hno
+        obtain ⟨rv, hrv⟩ := hno
+        obtain ⟨es', hes, hF2, _⟩ := d8 rv hrv
+        exact Or.inr ⟨rv, es', hrv, hes, hF2⟩
+  · simp [loadRectangles, h, hdoc, List.flatMap_def]
+  · rw [hmods, List.map_map, List.map_map]
+    apply List.map_congr_left
+    intro m0 _
+    simp only [Function.comp]
+    by_cases hr : m0.rects = []
+    · rw [finalize_rects_nil hr]; simp [hr]
+    · rw [finalize_rects_cons hr]; simp [hr]
+
+/-- NETS: the loaded nets are the entries of the document's `Nets` list, in order (members and weight, 1 when absent);
+    each has at least two pins, a positive weight, and names modules of the netlist. -/
+theorem nets_of_document {t : YVal α} {n : Netlist α} {nets : List (YVal α)} (hd : HasNets t nets)
+    (h : parseNetlist stog εA t = .ok n) :
+    List.Forall₂ NetOfDoc nets n.nets ∧
+    ∀ e ∈ n.nets, 2 ≤ e.members.length ∧ 0 < e.weight ∧ ∀ x ∈ e.members, ∃ m ∈ n.modules, m.name = x :=
+  ⟨loaded_nets_doc hd h, fun e he => loaded_net_ok h he⟩
+
+/-- a document without `Nets:` / without `Modules:` loads with no nets / no modules. -/
+theorem missing_keys {t : YVal α} {n : Netlist α} (h : parseNetlist stog εA t = .ok n) :
+    (NoRootKey t "Nets" → n.nets = []) ∧ (NoRootKey t "Modules" → n.modules = []) :=
+  ⟨fun hd => loaded_no_nets hd h, fun hd => loaded_no_modules hd h⟩
 
 /-- every rectangle of a loaded module carries the module's `fixed` and `hard` flags. -/
 theorem rectangle_flags (hp : StogPerm stog) {t : YVal α} {n : Netlist α} (h : parseNetlist stog εA t = .ok n)
@@ -221,12 +357,12 @@ theorem center_def_createStog (ε : α) {t : YVal α} {n : Netlist α}
                      (m.rects.map fun r => r.area * r.cy.val).sum / (m.rects.map NRect.area).sum) :=
   center_def (stogPerm_stogC06 ε εA) h hm hr
 
-theorem rectangles_def_createStog (ε : α) {t : YVal α} {n : Netlist α}
+theorem rectangles_perm_createStog (ε : α) {t : YVal α} {n : Netlist α}
     (h : parseNetlist (stogC06 ε εA) εA t = .ok n) :
-    ∃ ms es, parseDoc t = .ok (ms, es) ∧ loadRectangles (stogC06 ε εA) εA t = .ok (ms.flatMap (·.rects)) ∧
+    ∃ ms es, parseDoc t = .ok (ms, es) ∧
       List.Forall₂ (fun (m : NL.Mod α) (m0 : NL.Mod α) => m.name = m0.name ∧
         (m.rects.map NRect.resetLoc).Perm (m0.rects.map NRect.resetLoc)) n.modules ms :=
-  rectangles_def (stogPerm_stogC06 ε εA) h
+  rectangles_perm (stogPerm_stogC06 ε εA) h
 
 theorem rectangle_flags_createStog (ε : α) {t : YVal α} {n : Netlist α}
     (h : parseNetlist (stogC06 ε εA) εA t = .ok n) {m : NL.Mod α} (hm : m ∈ n.modules) {r : NRect α}
@@ -305,32 +441,77 @@ theorem wireLength_def (sqrt : α → α) (n : Netlist α) :
   have := k2 w hw
   simpa using this
 
+/-- WIRE LENGTH of a LOADED netlist: the sum over its nets of weight × Σ over the members' centres of the distance to
+    their mean; the centres are those of the modules the net names, there are at least two of them (the divisor of the
+    mean is ≥ 2) and the weight is positive. -/
+theorem wireLength_loaded (sqrt : α → α) {t : YVal α} {n : Netlist α} (h : parseNetlist stog εA t = .ok n) (w : α)
+    (hw : n.wireLength sqrt = some w) :
+    w = (n.nets.map fun e => e.weight * ((netCenters n e).map fun c =>
+          sqrt ((((netCenters n e).map (·.1)).sum / ((netCenters n e).length : α) - c.1) ^ 2 +
+                (((netCenters n e).map (·.2)).sum / ((netCenters n e).length : α) - c.2) ^ 2)).sum).sum ∧
+    ∀ e ∈ n.nets, List.Forall₂ (fun x c => ∃ m ∈ n.modules, m.name = x ∧ m.center = some c) e.members (netCenters n e) ∧
+      2 ≤ (netCenters n e).length ∧ 0 < e.weight := by
+  obtain ⟨k1, k2⟩ := wireLength_def sqrt n
+  refine ⟨?_, ?_⟩
+  · rw [k2 w hw]
+    congr 1
+    apply List.map_congr_left
+    intro e _
+    exact netWireLength_def sqrt _ _
+  · intro e he
+    have hsome : ∃ cs, centersOf n e.members = some cs := by
+      cases hc : centersOf n e.members with
+      | some cs => exact ⟨cs, rfl⟩
+      | none =>
+        have := k1.mpr ⟨e, he, hc⟩
+        rw [this] at hw; cases hw
+    obtain ⟨cs, hcs⟩ := hsome
+    have hnc : netCenters n e = cs := by simp [netCenters, hcs]
+    have hF := centersOf_some hcs
+    obtain ⟨h2, hpos, _⟩ := loaded_net_ok h he
+    rw [hnc]
+    exact ⟨hF, by rw [← hF.length_eq]; exact h2, hpos⟩
+
+/-- the wire length of a loaded netlist is undefined (the implementation raises) only if some net names a module that
+    has no centre. -/
+theorem wireLength_none_loaded (sqrt : α → α) {t : YVal α} {n : Netlist α} (h : parseNetlist stog εA t = .ok n)
+    (hw : n.wireLength sqrt = none) :
+    ∃ e ∈ n.nets, ∃ x ∈ e.members, ∃ m ∈ n.modules, m.name = x ∧ m.center = none := by
+  obtain ⟨e, he, hc⟩ := (wireLength_def sqrt n).1.mp hw
+  obtain ⟨x, hx, hcase⟩ := centersOf_none hc
+  refine ⟨e, he, x, hx, ?_⟩
+  rcases hcase with hf | ⟨m, hf, hcn⟩
+  · obtain ⟨m, hm, hname⟩ := (loaded_net_ok h he).2.2 x hx
+    have := List.find?_eq_none.mp hf m hm
+    simp [hname] at this
+  · refine ⟨m, List.mem_of_find?_eq_some hf, ?_, hcn⟩
+    have := List.find?_some hf
+    simpa using this
+
+
 /-! ## Part 2: ill-formed designs are rejected
 
-`DocWith t mods nets`: `t` is a root dictionary with `Modules: mods` (a dictionary) and `Nets: nets` (a list).
+`HasModules t mods`: `t` is a root dictionary with `Modules: mods` (a dictionary); `HasNets t nets`: … with `Nets: nets`
+(a list); `NoRootKey t key`: … without that key.  Only the key a defect lives under has to be present (a document
+without `Nets:` is well formed).
 A module entry is a pair `(name, .map info)` in `mods`; its attribute `key: v` is the pair `(.str key, v)` in `info`.
 The defect may sit in any module / net / attribute / rectangle of the document. -/
-
-/-- the attribute dictionary `info` has the entry `key: v`. -/
-def HasAttr (info : List (YVal α × YVal α)) (key : String) (v : YVal α) : Prop := (YVal.str key, v) ∈ info
-
-/-- the attribute dictionary `info` has no entry `key`. -/
-def NoAttr (info : List (YVal α × YVal α)) (key : String) : Prop := ∀ v, (YVal.str key, v) ∉ info
 
 /-- the module is declared hard: `fixed: true` or `hard: true`. -/
 def DeclaredHard (info : List (YVal α × YVal α)) : Prop :=
   HasAttr info "fixed" (.bool true) ∨ HasAttr info "hard" (.bool true)
 
-/-- (1) a net names a module that the `Modules` dictionary does not define. -/
+/-- (1) a net names a module that the `Modules` dictionary does not define (or there is no `Modules` key at all). -/
 def UnknownModuleInNet (t : YVal α) : Prop :=
-  ∃ mods nets, DocWith t mods nets ∧ ∃ l x, YVal.seq l ∈ nets ∧ YVal.str x ∈ l ∧ ∀ info, (YVal.str x, info) ∉ mods
+  ∃ nets, HasNets t nets ∧ ∃ l x, YVal.seq l ∈ nets ∧ YVal.str x ∈ l ∧
+    (NoRootKey t "Modules" ∨ ∃ mods, HasModules t mods ∧ ∀ info, (YVal.str x, info) ∉ mods)
 
 theorem reject_unknown_module {t : YVal α} (h : UnknownModuleInNet t) :
     ∃ err, parseNetlist stog εA t = .error err := by
-  obtain ⟨mods, nets, hd, l, x, hy, hx, hno⟩ := h
+  obtain ⟨nets, hd, l, x, hy, hx, hno⟩ := h
   apply error_of_not_ok
   intro n hn
-  obtain ⟨ms, es, hmm, hee, hf⟩ := loaded_doc hd hn
+  obtain ⟨ms, es, hdoc, hee, hf⟩ := loaded_nets hd hn
   obtain ⟨e, hemem, he⟩ := mapE_ok_mem hee hy
   have hxm := parseEdge_member he hx
   obtain ⟨hmods, hnets⟩ := finish_modules hf
@@ -338,25 +519,31 @@ theorem reject_unknown_module {t : YVal α} (h : UnknownModuleInNet t) :
   rw [hnets] at hres
   obtain ⟨e', _, hr⟩ := mapE_ok_mem hres hemem
   have hxn := (resolveNet_ok hr).2.1 x hxm
-  rw [hmods, List.map_map] at hxn
-  obtain ⟨m, hm, hname⟩ := List.mem_map.mp hxn
-  simp only [Function.comp, finalize_name] at hname
-  obtain ⟨entry, hentry, hpe⟩ := mapE_ok_mem' hmm hm
-  have := (parseModule_modOK hpe).2
-  apply hno entry.2
-  have hentry' : entry = (YVal.str x, entry.2) := Prod.ext (by rw [this, hname]) rfl
-  rw [← hentry']; exact hentry
+  rcases hno with hnom | ⟨mods, hdm, hno⟩
+  · rw [loaded_no_modules hnom hn] at hxn
+    simp at hxn
+  · obtain ⟨ms', es', hdoc', hmm, _⟩ := loaded_modules hdm hn
+    rw [hdoc] at hdoc'
+    cases hdoc'
+    rw [hmods, List.map_map] at hxn
+    obtain ⟨m, hm, hname⟩ := List.mem_map.mp hxn
+    simp only [Function.comp, finalize_name] at hname
+    obtain ⟨entry, hentry, hpe⟩ := mapE_ok_mem' hmm hm
+    have := (parseModule_modOK hpe).2
+    apply hno entry.2
+    have hentry' : entry = (YVal.str x, entry.2) := Prod.ext (by rw [this, hname]) rfl
+    rw [← hentry']; exact hentry
 
 /-- (2) a net ends with a number (its weight) that is not positive (`0`, negative, `false`). -/
 def NonPositiveWeight (t : YVal α) : Prop :=
-  ∃ mods nets, DocWith t mods nets ∧ ∃ l w nw, YVal.seq (l ++ [w]) ∈ nets ∧ w.num? = some nw ∧ nw.val ≤ 0
+  ∃ nets, HasNets t nets ∧ ∃ l w nw, YVal.seq (l ++ [w]) ∈ nets ∧ w.num? = some nw ∧ nw.val ≤ 0
 
 theorem reject_nonpositive_weight {t : YVal α} (h : NonPositiveWeight t) :
     ∃ err, parseNetlist stog εA t = .error err := by
-  obtain ⟨mods, nets, hd, l, w, nw, hy, hw, hle⟩ := h
+  obtain ⟨nets, hd, l, w, nw, hy, hw, hle⟩ := h
   apply error_of_not_ok
   intro n hn
-  obtain ⟨ms, es, hmm, hee, hf⟩ := loaded_doc hd hn
+  obtain ⟨ms, es, _, hee, hf⟩ := loaded_nets hd hn
   obtain ⟨e, hemem, he⟩ := mapE_ok_mem hee hy
   obtain ⟨hmods, hnets⟩ := finish_modules hf
   obtain ⟨_, _, _, _, _, hres⟩ := finish_ok hf
@@ -385,12 +572,12 @@ def BadAreaValue (v : YVal α) : Prop :=
 
 /-- (3) some module has an area that is not positive. -/
 def NonPositiveArea (t : YVal α) : Prop :=
-  ∃ mods nets, DocWith t mods nets ∧ ∃ k info v, (k, YVal.map info) ∈ mods ∧ HasAttr info "area" v ∧ BadAreaValue v
+  ∃ mods, HasModules t mods ∧ ∃ k info v, (k, YVal.map info) ∈ mods ∧ HasAttr info "area" v ∧ BadAreaValue v
 
 theorem reject_nonpositive_area {t : YVal α} (h : NonPositiveArea t) :
     ∃ err, parseNetlist stog εA t = .error err := by
-  obtain ⟨mods, nets, hd, k, info, v, hmem, hattr, hbad⟩ := h
-  refine reject_module hd hmem ?_
+  obtain ⟨mods, hd, k, info, v, hmem, hattr, hbad⟩ := h
+  refine reject_module' hd hmem ?_
   intro m hm
   obtain ⟨kvs, ps, s, rects, hk, hnd, hp, hc, _, _⟩ := parseModule_info hm
   obtain ⟨c1, _, c3, _, _⟩ := params_of_doc hk hnd hp
@@ -416,14 +603,14 @@ theorem reject_nonpositive_area {t : YVal α} (h : NonPositiveArea t) :
 
 /-- (4) a soft module (no `terminal`, every `fixed` / `hard` attribute `false`) without `area`. -/
 def SoftWithoutArea (t : YVal α) : Prop :=
-  ∃ mods nets, DocWith t mods nets ∧ ∃ k info, (k, YVal.map info) ∈ mods ∧ NoAttr info "area" ∧
+  ∃ mods, HasModules t mods ∧ ∃ k info, (k, YVal.map info) ∈ mods ∧ NoAttr info "area" ∧
     NoAttr info "terminal" ∧ (∀ v, HasAttr info "fixed" v → v = .bool false) ∧
     (∀ v, HasAttr info "hard" v → v = .bool false)
 
 theorem reject_soft_without_area {t : YVal α} (h : SoftWithoutArea t) :
     ∃ err, parseNetlist stog εA t = .error err := by
-  obtain ⟨mods, nets, hd, k, info, hmem, hnoa, hnot, hfx, hhd⟩ := h
-  refine reject_module hd hmem ?_
+  obtain ⟨mods, hd, k, info, hmem, hnoa, hnot, hfx, hhd⟩ := h
+  refine reject_module' hd hmem ?_
   intro m hm
   obtain ⟨kvs, ps, s, rects, hk, hnd, hp, hc, _, hs⟩ := parseModule_info hm
   obtain ⟨_, c2, _, _, _⟩ := params_of_doc hk hnd hp
@@ -450,13 +637,13 @@ theorem reject_soft_without_area {t : YVal α} (h : SoftWithoutArea t) :
 /-- (5) a module declared hard (or a terminal) that specifies an `area` (other than the empty dictionary, which the
     reader treats as "no area"). -/
 def HardWithArea (t : YVal α) : Prop :=
-  ∃ mods nets, DocWith t mods nets ∧ ∃ k info v, (k, YVal.map info) ∈ mods ∧ HasAttr info "area" v ∧ v ≠ .map [] ∧
+  ∃ mods, HasModules t mods ∧ ∃ k info v, (k, YVal.map info) ∈ mods ∧ HasAttr info "area" v ∧ v ≠ .map [] ∧
     (DeclaredHard info ∨ ∃ v', HasAttr info "terminal" v')
 
 theorem reject_hard_with_area {t : YVal α} (h : HardWithArea t) :
     ∃ err, parseNetlist stog εA t = .error err := by
-  obtain ⟨mods, nets, hd, k, info, v, hmem, hattr, hne, hhard⟩ := h
-  refine reject_module hd hmem ?_
+  obtain ⟨mods, hd, k, info, v, hmem, hattr, hne, hhard⟩ := h
+  refine reject_module' hd hmem ?_
   intro m hm
   obtain ⟨kvs, ps, s, rects, hk, hnd, hp, hc, _, hs⟩ := parseModule_info hm
   obtain ⟨c1, _, c3, _, _⟩ := params_of_doc hk hnd hp
@@ -478,18 +665,18 @@ theorem reject_hard_with_area {t : YVal α} (h : HardWithArea t) :
     have hex : ∃ a ∈ ps, a.kind = AttrKind.area := ⟨_, hpm, rfl⟩
     simp [ctorStep, hex] at hab
 
-/-- (6) a module declared hard, not a terminal, without `rectangles`. -/
+/-- (6) a module declared hard, not a terminal (no `terminal` attribute, or `terminal: false`), without `rectangles`. -/
 def HardWithoutRectangles (t : YVal α) : Prop :=
-  ∃ mods nets, DocWith t mods nets ∧ ∃ k info, (k, YVal.map info) ∈ mods ∧ DeclaredHard info ∧
-    NoAttr info "terminal" ∧ NoAttr info "rectangles"
+  ∃ mods, HasModules t mods ∧ ∃ k info, (k, YVal.map info) ∈ mods ∧ DeclaredHard info ∧
+    (∀ v, HasAttr info "terminal" v → v = .bool false) ∧ NoAttr info "rectangles"
 
 theorem reject_hard_without_rectangles {t : YVal α} (h : HardWithoutRectangles t) :
     ∃ err, parseNetlist stog εA t = .error err := by
-  obtain ⟨mods, nets, hd, k, info, hmem, hdecl, hnot, hnor⟩ := h
-  refine reject_module hd hmem ?_
+  obtain ⟨mods, hd, k, info, hmem, hdecl, hnot, hnor⟩ := h
+  refine reject_module' hd hmem ?_
   intro m hm
   obtain ⟨kvs, ps, s, rects, hk, hnd, hp, hc, hr, hs⟩ := parseModule_info hm
-  obtain ⟨hh, ht⟩ := hard_nonterminal hk hnd hp hc hdecl hnot
+  obtain ⟨hh, ht⟩ := declared_hard_nonterminal hk hnd hp hc hdecl hnot
   obtain ⟨_, _, _, _, c5⟩ := params_of_doc hk hnd hp
   have hnone := c5 hnor
   have hrects : rects = [] := by
@@ -501,21 +688,21 @@ theorem reject_hard_without_rectangles {t : YVal α} (h : HardWithoutRectangles 
   · rw [ht] at h4; cases h4
   · exact h4 hrects
 
-/-- (7) a module declared hard, not a terminal, two of whose rectangles overlap by more than the tolerance `εA`. -/
+/-- (7) a module declared hard, not a terminal (no `terminal` attribute, or `terminal: false`), two of whose rectangles overlap by more than the tolerance `εA`. -/
 def HardWithOverlap (εA : α) (t : YVal α) : Prop :=
-  ∃ mods nets, DocWith t mods nets ∧ ∃ k info, (k, YVal.map info) ∈ mods ∧ DeclaredHard info ∧
-    NoAttr info "terminal" ∧ ∃ rv es ea eb ra rb, HasAttr info "rectangles" rv ∧ rectEntries rv = some es ∧
+  ∃ mods, HasModules t mods ∧ ∃ k info, (k, YVal.map info) ∈ mods ∧ DeclaredHard info ∧
+    (∀ v, HasAttr info "terminal" v → v = .bool false) ∧ ∃ rv es ea eb ra rb, HasAttr info "rectangles" rv ∧ rectEntries rv = some es ∧
       [ea, eb].Sublist es ∧ entryRect ea = some ra ∧ entryRect eb = some rb ∧ εA < ra.areaOverlap rb
 
 theorem reject_hard_overlap {t : YVal α} (h : HardWithOverlap εA t) :
     ∃ err, parseNetlist stog εA t = .error err := by
-  obtain ⟨mods, nets, hd, k, info, hmem, hdecl, hnot, rv, es, ea, eb, ra, rb, hattr, hes, hsub, hra, hrb, hov⟩ := h
+  obtain ⟨mods, hd, k, info, hmem, hdecl, hnot, rv, es, ea, eb, ra, rb, hattr, hes, hsub, hra, hrb, hov⟩ := h
   apply error_of_not_ok
   intro n hn
-  obtain ⟨ms, es', hmm, _, hf⟩ := loaded_doc hd hn
+  obtain ⟨ms, es', _, hmm, hf⟩ := loaded_modules hd hn
   obtain ⟨m, hmin, hm⟩ := mapE_ok_mem hmm hmem
   obtain ⟨kvs, ps, s, rects, hk, hnd, hp, hc, hr, hs⟩ := parseModule_info hm
-  obtain ⟨hh, ht⟩ := hard_nonterminal hk hnd hp hc hdecl hnot
+  obtain ⟨hh, ht⟩ := declared_hard_nonterminal hk hnd hp hc hdecl hnot
   obtain ⟨_, _, _, c4, _⟩ := params_of_doc hk hnd hp
   have hsome := c4 rv hattr
   have hpr : parseRects s.fixed s.hard rv = .ok rects := by
@@ -553,13 +740,13 @@ theorem reject_hard_overlap {t : YVal α} (h : HardWithOverlap εA t) :
 
 /-- (8) a module has an attribute that is not one of the eight keywords. -/
 def UnknownAttribute (t : YVal α) : Prop :=
-  ∃ mods nets, DocWith t mods nets ∧ ∃ k info key v, (k, YVal.map info) ∈ mods ∧ (key, v) ∈ info ∧
+  ∃ mods, HasModules t mods ∧ ∃ k info key v, (k, YVal.map info) ∈ mods ∧ (key, v) ∈ info ∧
     ∀ kd, key ≠ YVal.str (kindName kd)
 
 theorem reject_unknown_attribute {t : YVal α} (h : UnknownAttribute t) :
     ∃ err, parseNetlist stog εA t = .error err := by
-  obtain ⟨mods, nets, hd, k, info, key, v, hmem, hkv, hunk⟩ := h
-  refine reject_module hd hmem ?_
+  obtain ⟨mods, hd, k, info, key, v, hmem, hkv, hunk⟩ := h
+  refine reject_module' hd hmem ?_
   intro m hm
   obtain ⟨kvs, ps, s, rects, hk, _, _, _, _, _⟩ := parseModule_info hm
   obtain ⟨y, _, hy⟩ := mapE_ok_mem hk hkv
@@ -581,12 +768,12 @@ theorem reject_unknown_root_key {t : YVal α} (h : UnknownRootKey t) :
 
 /-- (9) a module name that is not an identifier `[A-Za-z_][A-Za-z0-9_]*` (or not a string at all). -/
 def InvalidModuleName (t : YVal α) : Prop :=
-  ∃ mods nets, DocWith t mods nets ∧ ∃ key info, (key, info) ∈ mods ∧ key.validIdent = false
+  ∃ mods, HasModules t mods ∧ ∃ key info, (key, info) ∈ mods ∧ key.validIdent = false
 
 theorem reject_invalid_name {t : YVal α} (h : InvalidModuleName t) :
     ∃ err, parseNetlist stog εA t = .error err := by
-  obtain ⟨mods, nets, hd, key, info, hmem, hbad⟩ := h
-  refine reject_module hd hmem ?_
+  obtain ⟨mods, hd, key, info, hmem, hbad⟩ := h
+  refine reject_module' hd hmem ?_
   intro m hm
   obtain ⟨hok, hname⟩ := parseModule_modOK hm
   simp only at hname
@@ -597,13 +784,13 @@ theorem reject_invalid_name {t : YVal α} (h : InvalidModuleName t) :
 
 /-- (9') a region name in an area dictionary that is not an identifier. -/
 def InvalidRegionName (t : YVal α) : Prop :=
-  ∃ mods nets, DocWith t mods nets ∧ ∃ k info entries key a, (k, YVal.map info) ∈ mods ∧
+  ∃ mods, HasModules t mods ∧ ∃ k info entries key a, (k, YVal.map info) ∈ mods ∧
     HasAttr info "area" (.map entries) ∧ (key, a) ∈ entries ∧ key.validIdent = false
 
 theorem reject_invalid_region_name {t : YVal α} (h : InvalidRegionName t) :
     ∃ err, parseNetlist stog εA t = .error err := by
-  obtain ⟨mods, nets, hd, k, info, entries, key, a, hmem, hattr, hkm, hbad⟩ := h
-  refine reject_module hd hmem ?_
+  obtain ⟨mods, hd, k, info, entries, key, a, hmem, hattr, hkm, hbad⟩ := h
+  refine reject_module' hd hmem ?_
   intro m hm
   obtain ⟨kvs, ps, s, rects, hk, hnd, hp, hc, _, _⟩ := parseModule_info hm
   obtain ⟨c1, _, c3, _, _⟩ := params_of_doc hk hnd hp
@@ -624,13 +811,13 @@ theorem reject_invalid_region_name {t : YVal α} (h : InvalidRegionName t) :
 
 /-- (10) a net with a single pin: `[a]`, or `[a, w]` with `w` a number (the weight is not a pin). -/
 def OnePinNet (t : YVal α) : Prop :=
-  ∃ mods nets, DocWith t mods nets ∧ ∃ y, y ∈ nets ∧
+  ∃ nets, HasNets t nets ∧ ∃ y, y ∈ nets ∧
     ((∃ a, y = YVal.seq [a]) ∨ (∃ a w, y = YVal.seq [a, w] ∧ w.isNumber = true))
 
 theorem reject_one_pin_net {t : YVal α} (h : OnePinNet t) :
     ∃ err, parseNetlist stog εA t = .error err := by
-  obtain ⟨mods, nets, hd, y, hy, hform⟩ := h
-  refine reject_net hd hy ?_
+  obtain ⟨nets, hd, y, hy, hform⟩ := h
+  refine reject_net' hd hy ?_
   intro e he
   obtain ⟨hlen, hc⟩ := parseEdge_ok he
   rcases hform with ⟨a, rfl⟩ | ⟨a, w, rfl, hw⟩
@@ -653,14 +840,14 @@ theorem reject_one_pin_net {t : YVal α} (h : OnePinNet t) :
 
 /-- (11) a rectangle whose width or height is not positive, anywhere in a `rectangles` attribute. -/
 def NonPositiveRectangleSize (t : YVal α) : Prop :=
-  ∃ mods nets, DocWith t mods nets ∧ ∃ k info rv es x y w h rest nd, (k, YVal.map info) ∈ mods ∧
+  ∃ mods, HasModules t mods ∧ ∃ k info rv es x y w h rest nd, (k, YVal.map info) ∈ mods ∧
     HasAttr info "rectangles" rv ∧ rectEntries rv = some es ∧ YVal.seq (x :: y :: w :: h :: rest) ∈ es ∧
     (w.num? = some nd ∨ h.num? = some nd) ∧ nd.val ≤ 0
 
 theorem reject_nonpositive_rectangle_size {t : YVal α} (h : NonPositiveRectangleSize t) :
     ∃ err, parseNetlist stog εA t = .error err := by
-  obtain ⟨mods, nets, hd, k, info, rv, es, x, y, w, hh, rest, nd, hmem, hattr, hes, hent, hnum, hle⟩ := h
-  refine reject_module hd hmem ?_
+  obtain ⟨mods, hd, k, info, rv, es, x, y, w, hh, rest, nd, hmem, hattr, hes, hent, hnum, hle⟩ := h
+  refine reject_module' hd hmem ?_
   intro m hm
   obtain ⟨kvs, ps, s, rects, hk, hnd, hp, hc, hr, _⟩ := parseModule_info hm
   obtain ⟨_, _, _, c4, _⟩ := params_of_doc hk hnd hp
@@ -695,61 +882,77 @@ section examples
 def doc (mods : List (YVal Rat × YVal Rat)) (nets : List (YVal Rat)) : YVal Rat :=
   .map [(.str "Modules", .map mods), (.str "Nets", .seq nets)]
 
-theorem docWith_doc (mods : List (YVal Rat × YVal Rat)) (nets : List (YVal Rat)) : DocWith (doc mods nets) mods nets :=
-  ⟨_, rfl, List.mem_cons_self, List.mem_cons_of_mem _ List.mem_cons_self⟩
+theorem hasModules_doc (mods : List (YVal Rat × YVal Rat)) (nets : List (YVal Rat)) : HasModules (doc mods nets) mods :=
+  ⟨_, rfl, List.mem_cons_self⟩
+
+theorem hasNets_doc (mods : List (YVal Rat × YVal Rat)) (nets : List (YVal Rat)) : HasNets (doc mods nets) nets :=
+  ⟨_, rfl, List.mem_cons_of_mem _ List.mem_cons_self⟩
 
 /-- a soft module `A` of area 1. -/
 def softA : YVal Rat × YVal Rat := (.str "A", .map [(.str "area", .int 1)])
 
 example : UnknownModuleInNet (doc [softA] [.seq [.str "A", .str "B"]]) :=
-  ⟨_, _, docWith_doc _ _, [.str "A", .str "B"], "B", by simp, by simp, by intro info h; simp [softA] at h⟩
+  ⟨_, hasNets_doc _ _, [.str "A", .str "B"], "B", by simp, by simp,
+    Or.inr ⟨_, hasModules_doc _ _, by intro info h; simp [softA] at h⟩⟩
 
 example : NonPositiveWeight (doc [softA] [.seq [.str "A", .str "A", .int 0]]) :=
-  ⟨_, _, docWith_doc _ _, [.str "A", .str "A"], .int 0, .i 0, by simp, rfl, by decide +kernel⟩
+  ⟨_, hasNets_doc _ _, [.str "A", .str "A"], .int 0, .i 0, by simp, rfl, by decide +kernel⟩
 
 example : NonPositiveArea (doc [(.str "A", .map [(.str "area", .map [(.str "_", .int 2), (.str "dsp", .float (-1))])])] []) :=
-  ⟨_, _, docWith_doc _ _, _, _, _, List.mem_cons_self, List.mem_cons_self,
+  ⟨_, hasModules_doc _ _, _, _, _, List.mem_cons_self, List.mem_cons_self,
     Or.inr ⟨_, .str "dsp", .float (-1), .f (-1), rfl, by simp, rfl, by decide +kernel⟩⟩
 
 example : SoftWithoutArea (doc [(.str "A", .map [(.str "center", .seq [.int 1, .int 2]), (.str "hard", .bool false)])] []) :=
-  ⟨_, _, docWith_doc _ _, _, _, List.mem_cons_self, by intro v h; simp at h, by intro v h; simp at h,
+  ⟨_, hasModules_doc _ _, _, _, List.mem_cons_self, by intro v h; simp at h, by intro v h; simp at h,
     by intro v h; simp [HasAttr] at h, by intro v h; simp [HasAttr] at h; exact h⟩
 
 example : HardWithArea (doc [(.str "A", .map [(.str "area", .int 4), (.str "fixed", .bool true),
     (.str "rectangles", .seq [.int 1, .int 1, .int 2, .int 2])])] []) :=
-  ⟨_, _, docWith_doc _ _, _, _, _, List.mem_cons_self, List.mem_cons_self, by simp,
+  ⟨_, hasModules_doc _ _, _, _, _, List.mem_cons_self, List.mem_cons_self, by simp,
     Or.inl (Or.inl (List.mem_cons_of_mem _ List.mem_cons_self))⟩
 
 example : HardWithoutRectangles (doc [(.str "A", .map [(.str "hard", .bool true)])] []) :=
-  ⟨_, _, docWith_doc _ _, _, _, List.mem_cons_self, Or.inr List.mem_cons_self, by intro v h; simp at h,
+  ⟨_, hasModules_doc _ _, _, _, List.mem_cons_self, Or.inr List.mem_cons_self, by intro v h; simp [HasAttr] at h,
     by intro v h; simp at h⟩
 
 /-- two 2×2 squares centred at (1,1) and (2,2) overlap on a unit square: more than the tolerance 1/4. -/
 example : HardWithOverlap (1 / 4 : Rat) (doc [(.str "A", .map [(.str "hard", .bool true),
     (.str "rectangles", .seq [.seq [.int 1, .int 1, .int 2, .int 2], .seq [.int 2, .int 2, .int 2, .int 2]])])] []) :=
-  ⟨_, _, docWith_doc _ _, _, _, List.mem_cons_self, Or.inr List.mem_cons_self, by intro v h; simp at h,
+  ⟨_, hasModules_doc _ _, _, _, List.mem_cons_self, Or.inr List.mem_cons_self, by intro v h; simp [HasAttr] at h,
     _, _, _, _, _, _, List.mem_cons_of_mem _ List.mem_cons_self, rfl, List.Sublist.refl _, rfl, rfl, by decide +kernel⟩
 
 example : UnknownAttribute (doc [(.str "A", .map [(.str "area", .int 1), (.str "min_shape", .int 1)])] []) :=
-  ⟨_, _, docWith_doc _ _, _, _, .str "min_shape", .int 1, List.mem_cons_self, by simp,
+  ⟨_, hasModules_doc _ _, _, _, .str "min_shape", .int 1, List.mem_cons_self, by simp,
     by intro kd; cases kd <;> simp [kindName]⟩
 
 example : UnknownRootKey (.map [(.str "Modules", .map []), (.str "Edges", .seq [])] : YVal Rat) :=
   ⟨_, .str "Edges", .seq [], rfl, by simp, by simp, by simp⟩
 
 example : InvalidModuleName (doc [(.str "L1-Cache", .map [(.str "area", .int 1)])] []) :=
-  ⟨_, _, docWith_doc _ _, _, _, List.mem_cons_self, by decide⟩
+  ⟨_, hasModules_doc _ _, _, _, List.mem_cons_self, by decide⟩
 
 example : InvalidModuleName (doc [(.int 1, .map [(.str "area", .int 1)])] []) :=
-  ⟨_, _, docWith_doc _ _, _, _, List.mem_cons_self, rfl⟩
+  ⟨_, hasModules_doc _ _, _, _, List.mem_cons_self, rfl⟩
 
 example : OnePinNet (doc [softA] [.seq [.str "A", .float 3]]) :=
-  ⟨_, _, docWith_doc _ _, _, List.mem_cons_self, Or.inr ⟨_, _, rfl, rfl⟩⟩
+  ⟨_, hasNets_doc _ _, _, List.mem_cons_self, Or.inr ⟨_, _, rfl, rfl⟩⟩
 
 example : NonPositiveRectangleSize (doc [(.str "A", .map [(.str "area", .int 1),
     (.str "rectangles", .seq [.int 1, .int 1, .int 0, .int 2])])] []) :=
-  ⟨_, _, docWith_doc _ _, _, _, _, _, _, _, _, _, _, .i 0, List.mem_cons_self,
+  ⟨_, hasModules_doc _ _, _, _, _, _, _, _, _, _, _, .i 0, List.mem_cons_self,
     List.mem_cons_of_mem _ List.mem_cons_self, rfl, List.mem_cons_self, Or.inl rfl, by decide +kernel⟩
+
+/-- a document WITHOUT a `Nets:` key, module declared `hard: true, terminal: false`, no rectangles. -/
+example : HardWithoutRectangles (.map [(.str "Modules",
+    .map [(.str "A", .map [(.str "hard", .bool true), (.str "terminal", .bool false)])])] : YVal Rat) :=
+  ⟨_, ⟨_, rfl, List.mem_cons_self⟩, _, _, List.mem_cons_self, Or.inr List.mem_cons_self,
+    by intro v h; simp [HasAttr] at h; exact h, by intro v h; simp at h⟩
+
+/-- a net naming a module in a document without `Modules:`. -/
+example : UnknownModuleInNet (.map [(.str "Nets", .seq [.seq [.str "A", .str "B"]])] : YVal Rat) :=
+  ⟨_, ⟨_, rfl, List.mem_cons_self⟩, [.str "A", .str "B"], "A", by simp, by simp,
+    Or.inl ⟨_, rfl, by intro v h; simp at h⟩⟩
+
 
 /-- a well-formed document loads, and its derived quantities are the expected numbers
     (soft `A`: regions 3 + 2; hard `H`: one 4×2 rectangle, centre (2,2); terminal `T`: area 0). -/
